@@ -197,14 +197,14 @@ def sortConstraints (cs : List GC) : List GC :=
 /-! ### `~>` -/
 
 /-- `get_tilde_constraints(constraint)` for a `GemConstraint` with `op == "~>"`:
-`lower_bound = version.release()`, `upper_bound = lower_bound.bump()` -/
+the lower bound is the version itself, `upper_bound = version.release().bump()` -/
 def tildeOfVersion (v : Gem.Raw) : Except TErr (List GC) :=
   match liftV (Gem.release v) with
   | .error e => .error e
-  | .ok lower =>
-    match liftV (Gem.bump lower) with
+  | .ok rel =>
+    match liftV (Gem.bump rel) with
     | .error e => .error e
-    | .ok upper => .ok [⟨.ge, lower⟩, ⟨.lt, upper⟩]
+    | .ok upper => .ok [⟨.ge, v⟩, ⟨.lt, upper⟩]
 
 /-- `get_tilde_constraints(constraint)` -/
 def getTildeConstraints (gc : GC) : Except TErr (List GC) :=
